@@ -48,10 +48,13 @@ package wal
 
 //@ func readWriteSegment.Append
 //@ property C09
-//@ requires rwInv(ms) && len(data) < 2147483000 && separate(ms.txnMappedFile, data) && separate(ms.txnMappedFile, ms.writingIdx)
+//@ requires rwInv(ms) && len(data) < 2147483000 && (len(data) == 0 || separate(ms.txnMappedFile, data))
+//@ assume separate(ms.txnMappedFile, ms.writingIdx) because "the index buffer (heap or pool) and the mmap region of the segment file are distinct allocations"
 //@ ensures result == nil ==> rwInv(ms) && ms.lastOffset == offset && offset == old(ms.lastOffset) + 1 && ms.currentFileOffset == old(ms.currentFileOffset) + ms.c.codec.GetHeaderSize() + len(data)
 //@ ensures result == nil ==> be32(ms.writingIdx, 4*(offset - ms.c.baseOffset)) == old(ms.currentFileOffset)
 //@ ensures result != nil ==> ms.lastOffset == old(ms.lastOffset) && ms.currentFileOffset == old(ms.currentFileOffset) && len(ms.writingIdx) == old(len(ms.writingIdx))
+//@ ensures result != nil ==> rwInv(ms) && ms.lastCrc == old(ms.lastCrc)
+//@ ensures result != nil ==> (forall k int :: 0 <= k && k < cap(ms.txnMappedFile) ==> ms.txnMappedFile[0:cap(ms.txnMappedFile)][k] == old(ms.txnMappedFile[0:cap(ms.txnMappedFile)][k])) && (forall k int :: 0 <= k && k < cap(ms.writingIdx) ==> ms.writingIdx[0:cap(ms.writingIdx)][k] == old(ms.writingIdx[0:cap(ms.writingIdx)][k]))
 //@ ensures result != nil ==> errIs(result, codec.ErrEmptyPayload) || errIs(result, ErrSegmentFull) || errIs(result, ErrInvalidNextOffset)
 //@ ensures errIs(result, ErrSegmentFull) ==> len(data) > 0
 //@ modifies ms.lastCrc, ms.currentFileOffset, ms.lastOffset, ms.writingIdx, elems(ms.txnMappedFile), elems(ms.writingIdx)
@@ -67,7 +70,8 @@ package wal
 
 //@ func readWriteSegment.Truncate
 //@ property C09
-//@ requires rwInv(ms) && separate(ms.txnMappedFile, ms.writingIdx)
+//@ requires rwInv(ms)
+//@ assume separate(ms.txnMappedFile, ms.writingIdx) because "the index buffer (heap or pool) and the mmap region of the segment file are distinct allocations"
 //@ loop 0 invariant fileEndOffset <= i
 //@ loop 0 invariant forall k int :: 0 <= k && k < fileEndOffset ==> ms.txnMappedFile[k] == old(ms.txnMappedFile[k])
 //@ loop 0 modifies elems(ms.txnMappedFile)
@@ -82,3 +86,161 @@ package wal
 //@ func readWriteSegment.Flush
 //@ property C09
 //@ modifies nothing
+
+// ---------------------------------------------------------------------------
+// Closed world: the only implementations of these interfaces in non-test code.
+// (The verifier checks every conversion to the interface type.)
+
+//@ impl ReadWriteSegment *readWriteSegment
+//@ impl ReadOnlySegmentsGroup *readOnlySegmentsGroup
+
+//@ define curSeg(t *wal) *readWriteSegment = as(t.currentSegment, *readWriteSegment)
+
+// WAL invariant (sequential view; the fields are guarded by t.RWMutex):
+// offsets are ordered, and the current segment ends exactly at the last appended
+// offset (or is empty when the log is empty).
+//
+//@ define walMetrics(t *wal) bool = t.appendLatency != nil && t.appendBytes != nil && t.readLatency != nil && t.readBytes != nil && t.trimOps != nil && t.readErrors != nil && t.writeErrors != nil && t.syncLatency != nil
+
+//@ define walInv(t *wal) bool = walMetrics(t) && t.ctx != nil && t.currentSegment != nil && t.readOnlySegments != nil && rwInv(curSeg(t)) && t.segmentSize == curSeg(t).segmentSize && -1 <= t.firstOffset.v && -1 <= t.lastSyncedOffset.v && t.lastSyncedOffset.v <= t.lastAppendedOffset.v && ((t.lastAppendedOffset.v == -1 && curSeg(t).lastOffset == curSeg(t).c.baseOffset - 1) || (t.lastAppendedOffset.v >= 0 && curSeg(t).lastOffset == t.lastAppendedOffset.v))
+
+// --- environment of the WAL that is not verified: frame-only (footprint by type)
+
+//@ func CommitOffsetProvider.CommitOffset
+//@ trusted
+//@ pure
+//@ nondet
+
+//@ func readWriteSegment.Close
+//@ trusted
+//@ modifies fields(readWriteSegment)
+//@ preserves ms.c
+//@ note body hands the interior pointer &ms.writingIdx to a sync.Pool: outside the verified subset; footprint trusted
+
+//@ func readWriteSegment.Delete
+//@ property C09
+//@ requires ms.c != nil
+//@ modifies fields(readWriteSegment)
+
+//@ func newReadOnlySegmentsGroup
+//@ trusted
+//@ pure
+//@ nondet
+//@ ensures result1 == nil ==> result0 != nil
+//@ note red-black-tree bookkeeping of read-only segments is not verified
+
+//@ func readOnlySegmentsGroup.AddedNewSegment
+//@ trusted
+//@ modifies fields(readOnlySegmentsGroup), fields(readOnlySegment)
+
+//@ func readOnlySegmentsGroup.Close
+//@ trusted
+//@ modifies fields(readOnlySegmentsGroup), fields(readOnlySegment)
+
+//@ func readOnlySegmentsGroup.TrimSegments
+//@ trusted
+//@ modifies fields(readOnlySegmentsGroup), fields(readOnlySegment)
+
+//@ func readOnlySegmentsGroup.PollHighestSegment
+//@ trusted
+//@ modifies fields(readOnlySegmentsGroup), fields(readOnlySegment)
+
+//@ func readOnlySegmentsGroup.GetLastCrc
+//@ trusted
+//@ modifies fields(readOnlySegmentsGroup), fields(readOnlySegment)
+
+//@ func readOnlySegmentsGroup.Get
+//@ trusted
+//@ modifies fields(readOnlySegmentsGroup), fields(readOnlySegment)
+
+//@ func ReadOnlySegment.BaseOffset
+//@ trusted
+//@ pure
+//@ ensures 0 <= result && result < 4611686018427387904
+
+//@ func ReadOnlySegment.LastCrc
+//@ trusted
+//@ pure
+
+//@ func ReadOnlySegment.Delete
+//@ trusted
+//@ modifies fields(readOnlySegment), fields(readWriteSegment)
+
+//@ func wal.isClosed
+//@ property C09
+//@ requires t.ctx != nil
+//@ modifies nothing
+
+//@ func wal.LastOffset
+//@ property C09
+//@ pure
+//@ ensures result == t.lastSyncedOffset.v
+
+//@ func wal.FirstOffset
+//@ property C09
+//@ pure
+//@ ensures result == t.firstOffset.v
+
+//@ func segmentPath
+//@ property C10
+//@ pure
+
+//@ func newSegmentConfig
+//@ property C09 C10
+//@ ensures result1 == nil ==> result0 != nil && result0.codec != nil && result0.baseOffset == baseOffset
+//@ modifies nothing
+
+//@ func initFileWithZeroes
+//@ property C09
+//@ modifies nothing
+
+//@ func newReadWriteSegment
+//@ property C09 C10
+//@ requires segmentSize <= 2147483647 && 0 <= baseOffset && baseOffset < 4611686018427387904
+//@ ensures result1 == nil ==> result0 != nil && typeIs(result0, *readWriteSegment) && rwInv(as(result0, *readWriteSegment))
+//@ ensures result1 == nil ==> as(result0, *readWriteSegment).segmentSize == segmentSize && as(result0, *readWriteSegment).c.baseOffset == baseOffset
+//@ ensures result1 == nil ==> fresh(result0) && fresh(as(result0, *readWriteSegment).txnMappedFile) && fresh(as(result0, *readWriteSegment).writingIdx)
+//@ modifies nothing
+
+// ---------------------------------------------------------------------------
+// wal: per-operation contracts against the offsets (the list model's first/last)
+// and the invariant walInv.
+
+//@ func wal.rolloverSegment
+//@ property C09
+//@ requires walInv(t) && t.lastAppendedOffset.v < 4611686018427387903
+//@ assume at call newReadWriteSegment#0: result1 == nil ==> as(result0, *readWriteSegment).lastOffset == baseOffset - 1 because "a segment file beyond the last appended offset is new (zero-filled), so index recovery finds no entries in it"
+//@ ensures result == nil ==> walInv(t) && curSeg(t).c.baseOffset == t.lastAppendedOffset.v + 1
+//@ ensures result == nil ==> fresh(t.currentSegment) && fresh(curSeg(t).txnMappedFile) && fresh(curSeg(t).writingIdx)
+//@ ensures t.lastAppendedOffset.v == old(t.lastAppendedOffset.v) && t.lastSyncedOffset.v == old(t.lastSyncedOffset.v) && t.firstOffset.v == old(t.firstOffset.v)
+//@ modifies t.currentSegment, fields(readWriteSegment), fields(readOnlySegmentsGroup), fields(readOnlySegment)
+
+//@ func wal.appendAsync0
+//@ property C09 C08
+//@ requires walInv(t) && entry != nil && entry.Offset < 4611686018427387903
+//@ assume at call newReadWriteSegment#0: result1 == nil ==> as(result0, *readWriteSegment).lastOffset == baseOffset - 1 because "after Clear the segment for a non-initial first offset does not exist yet: recovery finds no entries in it"
+//@ ensures result == nil ==> walInv(t) && t.lastAppendedOffset.v == entry.Offset && (old(t.lastAppendedOffset.v) == -1 || entry.Offset == old(t.lastAppendedOffset.v) + 1)
+//@ ensures result == nil ==> t.lastSyncedOffset.v == old(t.lastSyncedOffset.v) && t.firstOffset.v == ite(old(t.firstOffset.v) == -1, entry.Offset, old(t.firstOffset.v))
+//@ ensures result != nil ==> t.lastAppendedOffset.v == old(t.lastAppendedOffset.v) && t.lastSyncedOffset.v == old(t.lastSyncedOffset.v) && t.firstOffset.v == old(t.firstOffset.v)
+//@ modifies t.currentSegment, t.lastAppendedOffset.v, t.firstOffset.v, fields(readWriteSegment), fields(readOnlySegmentsGroup), fields(readOnlySegment), elems(curSeg(t).txnMappedFile), elems(curSeg(t).writingIdx)
+
+//@ func wal.AppendAsync
+//@ property C09 C08
+//@ requires walInv(t) && entry != nil && entry.Offset < 4611686018427387903
+//@ ensures result == nil ==> walInv(t) && t.lastAppendedOffset.v == entry.Offset && (old(t.lastAppendedOffset.v) == -1 || entry.Offset == old(t.lastAppendedOffset.v) + 1)
+//@ ensures result == nil ==> t.lastSyncedOffset.v == old(t.lastSyncedOffset.v)
+//@ ensures result != nil ==> t.lastAppendedOffset.v == old(t.lastAppendedOffset.v) && t.lastSyncedOffset.v == old(t.lastSyncedOffset.v) && t.firstOffset.v == old(t.firstOffset.v)
+
+//@ func wal.Clear
+//@ property C09
+//@ requires walMetrics(t) && t.currentSegment != nil && t.readOnlySegments != nil && t.ctx != nil && t.segmentSize <= 2147483647
+//@ assume at call newReadWriteSegment#0: result1 == nil ==> as(result0, *readWriteSegment).lastOffset == baseOffset - 1 because "the WAL directory was just removed: the new segment 0 is empty"
+//@ ensures result == nil ==> walInv(t) && t.lastAppendedOffset.v == -1 && t.lastSyncedOffset.v == -1 && t.firstOffset.v == -1
+
+//@ func wal.trim
+//@ property C09
+//@ requires walMetrics(t) && t.readOnlySegments != nil
+//@ ensures result == nil ==> t.firstOffset.v == ite(firstOffset <= old(t.firstOffset.v), old(t.firstOffset.v), firstOffset)
+//@ ensures result != nil ==> t.firstOffset.v == old(t.firstOffset.v)
+//@ ensures t.lastAppendedOffset.v == old(t.lastAppendedOffset.v) && t.lastSyncedOffset.v == old(t.lastSyncedOffset.v)
+//@ modifies t.firstOffset.v, fields(readOnlySegmentsGroup), fields(readOnlySegment)
